@@ -451,6 +451,37 @@ def clone_detach(ctx, impl, dtype):
     return bad, cases
 
 
+def optimizer_effects(impl, dtype):
+    """the documented effect of step() is on p.data only: gradient buffers, frozen parameters and bystanders keep their bytes"""
+    sg, np, optim = impl.synapgrad, impl.np, impl.optim
+    bad, cases = [], 0
+    mk = {"SGD": lambda ps: optim.SGD(ps, lr=0.1, momentum=0.9, weight_decay=0.01),
+          "SGD-nesterov": lambda ps: optim.SGD(ps, lr=0.1, momentum=0.9, nesterov=True, weight_decay=0.01),
+          "Adam": lambda ps: optim.Adam(ps, lr=0.1, weight_decay=0.01), "AdamW": lambda ps: optim.AdamW(ps, lr=0.1, weight_decay=0.01)}
+    for name, ctor in mk.items():
+        impl.reset_modes()
+        ps = [sg.Tensor(np.arange(1, 7, dtype=dtype).reshape(2, 3) / 4, requires_grad=True), sg.Tensor(np.array([0.5, -1.5], dtype=dtype), requires_grad=True)]
+        frozen = sg.Tensor(np.array([2.0, 3.0], dtype=dtype), requires_grad=False)
+        by = sg.Tensor(np.ones(2, dtype=dtype), requires_grad=True); by._grad = np.ones(2, dtype=dtype)
+        opt = ctor(ps + [frozen])
+        for it in range(3):
+            for p in ps:
+                p._grad = (np.arange(p.data.size, dtype=dtype).reshape(p.shape) - 1.5) * (it + 1)
+            g0 = [snap(p._grad) for p in ps]; f0 = snap_t(frozen); b0 = snap_t(by); d0 = [snap(p.data) for p in ps]
+            opt.step()
+            cases += 1
+            if [snap(p._grad) for p in ps] != g0:
+                bad.append({"op": "optimizer " + name, "what": "step() changed a gradient buffer", "step": it})
+            if snap_t(frozen) != f0:
+                bad.append({"op": "optimizer " + name, "what": "step() changed a frozen parameter", "step": it})
+            if snap_t(by) != b0:
+                bad.append({"op": "optimizer " + name, "what": "step() changed a bystander tensor", "step": it})
+            if [snap(p.data) for p in ps] == d0:
+                bad.append({"op": "optimizer " + name, "what": "step() did not update the parameters (documented effect missing)", "step": it})
+    impl.reset_modes()
+    return bad, cases
+
+
 # ------------------------------------------------------------------------------------------------ the check
 HEADER = "From Coq Require Import List Bool Arith String.\nImport ListNotations.\nOpen Scope string_scope.\nFrom SG Require Import Base.Cmp IR.Effects Gen.GenEffects.\n"
 
@@ -477,7 +508,7 @@ def run(ctx):
         ctx.log("TRANSLATOR FAILED", repr(res["effects"])[:300])
     else:
         dump = json.load(open(os.path.join(common.ROOT, "work", "effects.json")))
-    ok_build, fails = ctx.build_props(extra_targets=["IR/Effects.vo", "Proofs/EffectsProofs.vo", "Gen/GenEffects.vo"])
+    ok_build, fails = ctx.build_props(extra_targets=["IR/Effects.vo", "Proofs/EffectsProofs.vo", "Gen/GenEffects.vo", "Proofs/C11Proofs.vo"])
     failing_fns = []
     if dump is not None:
         ok, out = ctx.coq_eval("failing", HEADER + "Eval vm_compute in (failing program).\n" +
@@ -542,10 +573,11 @@ def run(ctx):
                 p["dtype"] = str(np.dtype(dt))
             problems += pe; cases += ce
             distinct |= {("extra", n, str(dt)) for n, _ in extra_programs(impl)}
-            bad, cc = clone_detach(ctx, impl, dt)
-            for p in bad:
-                p["dtype"] = str(np.dtype(dt))
-            problems += bad; cases += cc
+            for fn_ in (clone_detach, optimizer_effects):
+                bad, cc = fn_(ctx, impl, dt) if fn_ is clone_detach else fn_(impl, dt)
+                for p in bad:
+                    p["dtype"] = str(np.dtype(dt))
+                problems += bad; cases += cc
         # the im2col / col2im variants are not reached by the public ops: call them directly under the spy
         ct = impl.conv_tools
         for dt in dtypes:
@@ -570,6 +602,7 @@ def run(ctx):
             cases, len(distinct) + (60 if ctx.quick else 600), problems,
             note="every catalogued op x {f32,f64} x {separate, overlapping views of one buffer, non-contiguous views, same tensor twice}; "
                  "extra programs with views of one another, shared nodes and several backward calls; clone/detach; random programs; each case run twice")
+    problems.sort(key=lambda p: 0 if "changed" in str(p.get("what")) else 1)      # byte changes first
     for p in problems[:5]:
         site = p.get("op") or p.get("program") or "program"
         ctx.witness(str(site), "operand-or-gradient-mutated", {k: v for k, v in p.items() if k not in ("diff",)},
@@ -702,6 +735,9 @@ def replay(ctx, data):
                 print("REPRODUCED", json.dumps(probs[0], default=str)[:600]); return 1
         print("not reproduced"); return 0
     for dt in (np.float32, np.float64):
+        bad = clone_detach(ctx, impl, dt)[0] + optimizer_effects(impl, dt)[0]
+        if bad:
+            print("REPRODUCED", json.dumps(bad[0], default=str)[:600]); return 1
         pe, _ = run_extra(ctx, impl, dt, random.Random(1))
         if pe:
             print("REPRODUCED", json.dumps(pe[0], default=str)[:600]); return 1
